@@ -1,4 +1,8 @@
 //! Kani harnesses over the real gitoxide crates (path dependencies on /repo).
 #![allow(dead_code, unused_imports, clippy::all)]
 
+#[path = "../../common/util.rs"]
+pub mod util;
+
 pub mod c05;
+pub mod c15;
